@@ -48,6 +48,15 @@ P = {
             "to 'no heap allocation for any input' trusts rustc's name resolution and that core has no allocator; that step is exercised, not "
             "proved, by the counting allocator around every call (both feature sets) and by the 16 no_std switch-combination builds.",
             "Coq proof (vm_compute over the translated name table) + counting-allocator differential runs + no_std builds"),
+    "C20": ("proof",
+            "Theorems request/response/headers/chunk_work_linear, request_travel_exact, set_cursor_never_called (Thm/C20.v) about the COST MODEL: "
+            "textual copies (regenerated each run) of Scan.v/Model.v/Backends.v and the translated loop shells compiled against a cursor with work "
+            "counters (CursorC.v), sequenced as in lib.rs (CostTop.v). For every backend (any word width), config, capacity, buffer and outcome: "
+            "ticks <= 32*len + 80 (potential method; the backward trim of each value is paid by the bytes of that value), travel <= len, "
+            "travel + unread = len on completion; set_cursor is never called (translated name table). PARTIAL: tied to the crate by correspondence "
+            "(outcome class and cursor travel of the extracted cost model = the cfg(httparse_verif) counters, 3 forced backends), not by proof; "
+            "time is measured (wall-clock scaling on adversarial families), not proved.",
+            "Coq proof over a cost-instrumented copy of the model + counter correspondence + wall-clock scaling"),
     "C06": ("proof",
             "Theorem request_ref_eq / request_entries_ref_eq (Thm/C06.v): the model of all four request entry points equals the span-level "
             "reference grammar ref_request for every backend satisfying EnvOk, config, capacity and buffer (unbounded). Tie: model vs crate "
